@@ -102,6 +102,8 @@ pub enum Event {
     ChainStarted { chain: usize },
     /// the chain asked the model for an(other) initial position
     InitAttempt { chain: usize },
+    /// the progress callback ran: sampling time it was given, virtual time, number of chains
+    Callback { elapsed_ns: u64, now_ns: u64, chains: usize },
 }
 
 #[derive(Default)]
